@@ -1,3 +1,864 @@
 import PgFdr.Model.C08
+
+/-! Helper lemmas for C08.
+
+Part 1 (lifted from the design scratch §14.7): the sliding window of `full_digest` over an abstract,
+strictly increasing site list `Z` — layer 1 (`next_win`, `go_all`, `mem_win`, `lo_closed`, `mem_go`) and
+layer 2 (ranks; `zfull_digest_set_eq : Emitted c Z a b ↔ ZValid c Z a b`).
+Part 2: the bridge from residues to the site list (`sitesZ_sorted`, `siteCut_iff_site`, `inner_eq_innerSites`)
+and from index pairs to strings.
+Part 3: non-specific digestion.  Part 4: semi-specific digestion. -/
 namespace PgFdr.C08
+open PgFdr.Generated
+
+def allStarts (E : List Nat) : List Nat := 0 :: E.map (· + 1)
+
+def lo (c : Cfg) : Nat → Nat
+  | 0 => 0
+  | k + 1 =>
+    let m := b2n (decide (lo c k = 0) && c.met)
+    if k + 2 - lo c k > c.mc + 1 + m then lo c k + 1 + m else lo c k
+
+def win (c : Cfg) (E : List Nat) (k : Nat) : List Nat := ((allStarts E).take (k + 1)).drop (lo c k)
+
+theorem b2n_le (b : Bool) : b2n b ≤ 1 := by cases b <;> simp [b2n]
+
+theorem lo_le (c : Cfg) : ∀ k, lo c k ≤ k := by
+  intro k
+  induction k with
+  | zero => simp [lo]
+  | succ k ih =>
+    simp only [lo]
+    have := b2n_le (decide (lo c k = 0) && c.met)
+    split <;> omega
+
+theorem allStarts_length (E : List Nat) : (allStarts E).length = E.length + 1 := by simp [allStarts]
+
+theorem allStarts_pos (E : List Nat) (j : Nat) (hj : 0 < j) (v : Nat) (h : (allStarts E)[j]? = some v) :
+    0 < v := by
+  cases j with
+  | zero => omega
+  | succ j =>
+    simp only [allStarts, List.getElem?_cons_succ, List.getElem?_map] at h
+    cases hE : E[j]? with
+    | none => simp [hE] at h
+    | some e => simp [hE] at h; omega
+
+theorem next_win (c : Cfg) (E : List Nat) (k : Nat) (hk : k < E.length) (i : Nat) (hi : E[k]? = some i) :
+    next c (win c E k) i = win c E (k + 1) := by
+  have hlo := lo_le c k
+  have hlen := allStarts_length E
+  have hA : (allStarts E)[k + 1]? = some (i + 1) := by simp [allStarts, hi]
+  have hs1 : win c E k ++ [i + 1] = ((allStarts E).take (k + 2)).drop (lo c k) := by
+    unfold win
+    have : (allStarts E).take (k + 2) = (allStarts E).take (k + 1) ++ [i + 1] := by
+      rw [List.take_add_one, hA]; rfl
+    rw [this, List.drop_append_of_le_length (by simp [List.length_take]; omega)]
+  have hhead : (((allStarts E).take (k + 2)).drop (lo c k)).head? = (allStarts E)[lo c k]? := by
+    rw [List.head?_drop, List.getElem?_take]
+    simp; omega
+  have hhead0 : ((((allStarts E).take (k + 2)).drop (lo c k)).head? == some 0) = decide (lo c k = 0) := by
+    rw [hhead]
+    by_cases h0 : lo c k = 0
+    · simp [h0, allStarts]
+    · have hpos : 0 < lo c k := by omega
+      have hlt : lo c k < (allStarts E).length := by omega
+      have hv := allStarts_pos E (lo c k) hpos _ (List.getElem?_eq_getElem hlt)
+      rw [List.getElem?_eq_getElem hlt]
+      simp only [h0, decide_false]
+      have : (allStarts E)[lo c k] ≠ 0 := by omega
+      simp [this]
+  have hlen1 : (((allStarts E).take (k + 2)).drop (lo c k)).length = k + 2 - lo c k := by
+    simp [List.length_take]; omega
+  unfold next
+  simp only [hs1, hhead0, hlen1]
+  unfold win
+  simp only [lo]
+  split
+  · rw [List.drop_drop]
+    congr 1
+    omega
+  · rfl
+
+
+theorem flatMap_congr' {α β : Type} (l : List α) (f g : α → List β) (h : ∀ x ∈ l, f x = g x) :
+    l.flatMap f = l.flatMap g := by
+  induction l with
+  | nil => rfl
+  | cons a l ih =>
+    simp only [List.flatMap_cons]
+    rw [h a (by simp), ih (fun x hx => h x (by simp [hx]))]
+
+/-- the loop started with the right window emits, for every remaining site, from that site's window -/
+theorem go_win (c : Cfg) (E : List Nat) : ∀ (m k : Nat), k + m = E.length →
+    go c (E.drop k) (win c E k) =
+      ((List.range m).flatMap fun d => emit c (win c E (k + d)) ((E.drop (k + d)).headD 0)) := by
+  intro m
+  induction m with
+  | zero =>
+    intro k hk
+    have : E.drop k = [] := List.drop_eq_nil_of_le (by omega)
+    simp [this, go]
+  | succ m ih =>
+    intro k hk
+    have hkl : k < E.length := by omega
+    have hdrop : E.drop k = E[k] :: E.drop (k + 1) := (List.drop_eq_getElem_cons hkl)
+    rw [hdrop, go, next_win c E k hkl E[k] (List.getElem?_eq_getElem hkl), ih (k + 1) (by omega)]
+    rw [List.range_succ_eq_map, List.flatMap_cons, List.flatMap_map]
+    simp only [Nat.add_zero, hdrop, List.headD_cons]
+    congr 1
+    apply flatMap_congr'
+    intro d _
+    have : k + 1 + d = k + (d + 1) := by omega
+    simp [this, Function.comp]
+
+/-- `full_digest`'s loop from the beginning -/
+theorem go_all (c : Cfg) (E : List Nat) :
+    go c E [0] = ((List.range E.length).flatMap fun k => emit c (win c E k) (E.getD k 0)) := by
+  have h0 : win c E 0 = [0] := by simp [win, lo, allStarts]
+  have := go_win c E E.length 0 (by omega)
+  rw [List.drop_zero, h0] at this
+  rw [this]
+  apply flatMap_congr'
+  intro k hk
+  simp only [Nat.zero_add]
+  congr 1
+  have hk' : k < E.length := by simpa using hk
+  rw [List.drop_eq_getElem_cons hk']
+  simp [List.getD, List.getElem?_eq_getElem hk']
+
+/-- membership in a window: exactly the starts with index between `lo k` and `k` -/
+theorem mem_win (c : Cfg) (E : List Nat) (k : Nat) (hk : k < E.length) (s : Nat) :
+    s ∈ win c E k ↔ ∃ j, lo c k ≤ j ∧ j ≤ k ∧ (allStarts E)[j]? = some s := by
+  unfold win
+  constructor
+  · intro h
+    obtain ⟨i, hi, rfl⟩ := List.getElem_of_mem h
+    have hi' : i < k + 1 - lo c k := by
+      simpa [List.length_drop, List.length_take, allStarts_length, Nat.min_eq_left (show k + 1 ≤ E.length + 1 by omega)] using hi
+    refine ⟨lo c k + i, by omega, by omega, ?_⟩
+    rw [List.getElem_drop, List.getElem_take]
+    exact List.getElem?_eq_getElem _
+  · rintro ⟨j, h1, h2, h3⟩
+    have hjlen : j < (allStarts E).length := (List.getElem?_eq_some_iff.mp h3).1
+    have : s = (allStarts E)[j] := by
+      rw [List.getElem?_eq_getElem hjlen] at h3; exact (Option.some.inj h3).symm
+    subst this
+    rw [List.mem_iff_getElem]
+    refine ⟨j - lo c k, ?_, ?_⟩
+    · simp [List.length_drop, List.length_take, allStarts_length]; omega
+    · rw [List.getElem_drop, List.getElem_take]
+      congr 1; omega
+
+/-- closed form of the lower end of the window -/
+theorem lo_closed (c : Cfg) : ∀ k, lo c k =
+    if c.met then (if k ≤ c.mc + 1 then 0 else k - c.mc) else k - c.mc := by
+  intro k
+  induction k with
+  | zero => cases c.met <;> simp [lo]
+  | succ k ih =>
+    simp only [lo]
+    rw [ih]
+    cases hm : c.met
+    · simp only [Bool.false_eq_true, if_false, Bool.and_false, b2n]
+      split <;> omega
+    · simp only [if_true, Bool.and_true]
+      by_cases h1 : k ≤ c.mc + 1
+      · simp only [h1, if_true, decide_true, b2n]
+        by_cases h2 : k + 1 ≤ c.mc + 1
+        · simp only [h2, if_true]; split <;> omega
+        · simp only [h2, if_false]; split <;> omega
+      · simp only [h1, if_false]
+        have hk : k - c.mc ≠ 0 := by omega
+        simp only [hk, decide_false, b2n, Bool.false_eq_true, if_false]
+        have h2 : ¬ (k + 1 ≤ c.mc + 1) := by omega
+        simp only [h2, if_false]
+        split <;> omega
+
+
+/-- layer 1, final form: a pair `(start, site)` is emitted by the loop iff the site is the
+    `k`-th site, the start is the `j`-th start with `lo k ≤ j ≤ k`, and the length is within
+    the window -/
+theorem mem_go (c : Cfg) (E : List Nat) (s i : Nat) :
+    (s, i) ∈ go c E [0] ↔
+      ∃ k j, E[k]? = some i ∧ lo c k ≤ j ∧ j ≤ k ∧ (allStarts E)[j]? = some s ∧
+        (c.minL : Int) ≤ ((min i (c.n - 1) : Nat) : Int) - (s : Int) + 1 ∧
+        ((min i (c.n - 1) : Nat) : Int) - (s : Int) + 1 ≤ (c.maxL : Int) := by
+  rw [go_all]
+  simp only [List.mem_flatMap, List.mem_range, emit, List.mem_filterMap]
+  constructor
+  · rintro ⟨k, hk, s', hs', hpair⟩
+    split at hpair
+    · rename_i hlen
+      simp only [Option.some.injEq, Prod.mk.injEq] at hpair
+      obtain ⟨rfl, rfl⟩ := hpair
+      obtain ⟨j, h1, h2, h3⟩ := (mem_win c E k hk s').mp hs'
+      simp only [Bool.and_eq_true, decide_eq_true_eq] at hlen
+      refine ⟨k, j, ?_, h1, h2, h3, hlen.1, hlen.2⟩
+      simp [List.getD, List.getElem?_eq_getElem hk]
+    · simp at hpair
+  · rintro ⟨k, j, hk, h1, h2, h3, hl1, hl2⟩
+    have hkl : k < E.length := (List.getElem?_eq_some_iff.mp hk).1
+    refine ⟨k, hkl, s, (mem_win c E k hkl s).mpr ⟨j, h1, h2, h3⟩, ?_⟩
+    have hi : E.getD k 0 = i := by simp [List.getD, hk]
+    rw [hi]
+    simp [hl1, hl2]
+
+
+/-! ## layer 2, part A: ranks -/
+
+/-- number of sites strictly below `x` -/
+def below (Z : List Nat) (x : Nat) : Nat := (Z.filter (fun z => decide (z < x))).length
+
+theorem below_append (Z W : List Nat) (x : Nat) : below (Z ++ W) x = below Z x + below W x := by
+  simp [below, List.filter_append]
+
+/-- in a strictly increasing list, exactly `t` entries lie below the `t`-th entry -/
+theorem below_getElem (Z : List Nat) (hs : Z.Pairwise (· < ·)) (t : Nat) (ht : t < Z.length) :
+    below Z Z[t] = t := by
+  have hsplit : Z = Z.take t ++ Z[t] :: Z.drop (t + 1) := by
+    rw [← List.drop_eq_getElem_cons ht, List.take_append_drop]
+  have h1 : below (Z.take t) Z[t] = t := by
+    unfold below
+    rw [List.filter_eq_self.mpr]
+    · simp [List.length_take]; omega
+    · intro z hz
+      obtain ⟨i, hi, rfl⟩ := List.getElem_of_mem hz
+      have hi' : i < t := by simp [List.length_take] at hi; omega
+      simp only [List.getElem_take, decide_eq_true_eq]
+      exact List.pairwise_iff_getElem.mp hs i t (by omega) ht hi'
+  have h2 : below (Z[t] :: Z.drop (t + 1)) Z[t] = 0 := by
+    unfold below
+    rw [List.length_eq_zero_iff, List.filter_eq_nil_iff]
+    intro z hz
+    simp only [decide_eq_true_eq, Nat.not_lt]
+    rcases List.mem_cons.mp hz with rfl | hz
+    · exact Nat.le_refl _
+    · obtain ⟨i, hi, rfl⟩ := List.getElem_of_mem hz
+      rw [List.getElem_drop]
+      have hi2 : t + 1 + i < Z.length := by simp [List.length_drop] at hi; omega
+      exact Nat.le_of_lt (List.pairwise_iff_getElem.mp hs t (t + 1 + i) ht hi2 (by omega))
+  calc below Z Z[t] = below (Z.take t ++ Z[t] :: Z.drop (t + 1)) Z[t] := by rw [← hsplit]
+    _ = t := by rw [below_append, h1, h2]; omega
+
+/-- … and `t + 1` entries lie below its successor -/
+theorem below_getElem_succ (Z : List Nat) (hs : Z.Pairwise (· < ·)) (t : Nat) (ht : t < Z.length) :
+    below Z (Z[t] + 1) = t + 1 := by
+  have hsplit : Z = Z.take (t + 1) ++ Z.drop (t + 1) := (List.take_append_drop _ _).symm
+  have h1 : below (Z.take (t + 1)) (Z[t] + 1) = t + 1 := by
+    unfold below
+    rw [List.filter_eq_self.mpr]
+    · simp [List.length_take]; omega
+    · intro z hz
+      obtain ⟨i, hi, rfl⟩ := List.getElem_of_mem hz
+      have hi' : i < t + 1 := by simp [List.length_take] at hi; omega
+      simp only [List.getElem_take, decide_eq_true_eq]
+      rcases Nat.lt_or_ge i t with h | h
+      · exact Nat.lt_succ_of_lt (List.pairwise_iff_getElem.mp hs i t (by omega) ht h)
+      · have : i = t := by omega
+        subst this; exact Nat.lt_succ_self _
+  have h2 : below (Z.drop (t + 1)) (Z[t] + 1) = 0 := by
+    unfold below
+    rw [List.length_eq_zero_iff, List.filter_eq_nil_iff]
+    intro z hz
+    simp only [decide_eq_true_eq, Nat.not_lt]
+    obtain ⟨i, hi, rfl⟩ := List.getElem_of_mem hz
+    rw [List.getElem_drop]
+    have hi2 : t + 1 + i < Z.length := by simp [List.length_drop] at hi; omega
+    exact List.pairwise_iff_getElem.mp hs t (t + 1 + i) ht hi2 (by omega)
+  calc below Z (Z[t] + 1) = below (Z.take (t + 1) ++ Z.drop (t + 1)) (Z[t] + 1) := by rw [← hsplit]
+    _ = t + 1 := by rw [below_append, h1, h2]
+
+theorem below_mono (Z : List Nat) (x y : Nat) (h : x ≤ y) : below Z x ≤ below Z y := by
+  unfold below
+  induction Z with
+  | nil => simp
+  | cons z Z ih =>
+    simp only [List.filter_cons]
+    by_cases h1 : z < x
+    · have h2 : z < y := by omega
+      simp [h1, h2]; exact ih
+    · by_cases h2 : z < y
+      · simp [h1, h2]; omega
+      · simp [h1, h2]; exact ih
+
+theorem below_le_length (Z : List Nat) (x : Nat) : below Z x ≤ Z.length := List.length_filter_le _ _
+
+/-- number of sites in the half-open interval `[a, b)` as a difference of ranks -/
+theorem between_eq (Z : List Nat) (a b : Nat) (hab : a ≤ b) :
+    (Z.filter (fun z => decide (a ≤ z) && decide (z < b))).length = below Z b - below Z a := by
+  unfold below
+  induction Z with
+  | nil => simp
+  | cons z Z ih =>
+    have hm := below_mono Z a b hab
+    unfold below at hm
+    simp only [List.filter_cons]
+    by_cases h1 : z < a
+    · have h2 : z < b := by omega
+      have h3 : ¬ a ≤ z := by omega
+      simp [h1, h2, h3, ih]
+    · have h3 : a ≤ z := by omega
+      by_cases h2 : z < b
+      · simp [h1, h2, h3, ih]; omega
+      · simp [h1, h2, h3, ih]
+
+
+
+/-! ## layer 2, part B: the declarative rule, and the case without an initiator-Met site -/
+
+/-- cuts strictly inside `(a, b)`: sites `z` whose cut position `z + 1` lies there -/
+def inner (Z : List Nat) (a b : Nat) : Nat :=
+  (Z.filter (fun z => decide (a ≤ z) && decide (z < b - 1))).length
+
+/-- `x` is the cut position of an enzymatic site and not the protein end -/
+def SiteCut (Z : List Nat) (n x : Nat) : Prop := ∃ z ∈ Z, z + 1 = x ∧ x ≤ n - 1
+
+def ZTerm (Z : List Nat) (n : Nat) (met : Bool) (x : Nat) : Prop :=
+  x = 0 ∨ x = n ∨ SiteCut Z n x ∨ (met = true ∧ x = 1)
+
+structure ZValid (c : Cfg) (Z : List Nat) (a b : Nat) : Prop where
+  lt : a < b
+  le : b ≤ c.n
+  minL : c.minL ≤ b - a
+  maxL : b - a ≤ c.maxL
+  termA : ZTerm Z c.n c.met a
+  termB : ZTerm Z c.n c.met b
+  budget : inner Z a b ≤ c.mc
+
+def Emitted (c : Cfg) (Z : List Nat) (a b : Nat) : Prop :=
+  ∃ s i, (s, i) ∈ go c (sitesOf c Z) [0] ∧ a = s ∧ b = min (i + 1) c.n
+
+theorem inner_eq (Z : List Nat) (a b : Nat) (hab : a < b) :
+    inner Z a b = below Z (b - 1) - below Z a := by
+  unfold inner
+  exact between_eq Z a (b - 1) (by omega)
+
+theorem below_zero (Z : List Nat) : below Z 0 = 0 := by
+  simp [below]
+
+/-- everything is below `n` -/
+theorem below_all (Z : List Nat) (n : Nat) (h : ∀ z ∈ Z, z < n) : below Z n = Z.length := by
+  unfold below
+  rw [List.filter_eq_self.mpr]
+  intro z hz; simpa using h z hz
+
+/-- if `n - 1` is not a site, everything is even below `n - 1` -/
+theorem below_pred (Z : List Nat) (n : Nat) (h : ∀ z ∈ Z, z < n) (hlast : n - 1 ∉ Z) :
+    below Z (n - 1) = Z.length := by
+  unfold below
+  rw [List.filter_eq_self.mpr]
+  intro z hz
+  have h1 := h z hz
+  have h2 : z ≠ n - 1 := fun e => hlast (e ▸ hz)
+  simp only [decide_eq_true_eq]; omega
+
+
+theorem allStarts_succ (E : List Nat) (j : Nat) : (allStarts E)[j + 1]? = (E[j]?).map (· + 1) := by
+  simp [allStarts]
+
+/-- rank of a start position: the `j`-th start has exactly `j` sites below it (no Met site) -/
+theorem below_start_nomet (Z : List Nat) (hs : Z.Pairwise (· < ·)) (n : Nat) (hn : ∀ z ∈ Z, z < n)
+    (j s : Nat) (hj : j ≤ Z.length) (h : (allStarts (Z ++ [n]))[j]? = some s) : below Z s = j := by
+  cases j with
+  | zero => simp [allStarts] at h; subst h; exact below_zero Z
+  | succ j =>
+    rw [allStarts_succ] at h
+    have hj' : j < Z.length := by omega
+    rw [List.getElem?_append_left hj', List.getElem?_eq_getElem hj'] at h
+    simp at h; subst h
+    exact below_getElem_succ Z hs j hj'
+
+/-- soundness without a Met site: every emitted pair satisfies the declarative rule -/
+theorem emitted_valid_nomet (c : Cfg) (Z : List Nat) (hmet : c.met = false) (hn1 : 1 ≤ c.n)
+    (hmin : 1 ≤ c.minL) (hs : Z.Pairwise (· < ·)) (hn : ∀ z ∈ Z, z < c.n) (a b : Nat)
+    (h : Emitted c Z a b) : ZValid c Z a b := by
+  obtain ⟨s, i, hmem, rfl, rfl⟩ := h
+  rw [mem_go] at hmem
+  obtain ⟨k, j, hk, hlo, hjk, hj, hl1, hl2⟩ := hmem
+  have hE : sitesOf c Z = Z ++ [c.n] := by simp [sitesOf, hmet]
+  rw [hE] at hk hj
+  have hkr : k ≤ Z.length := by
+    have := (List.getElem?_eq_some_iff.mp hk).1
+    simp at this; omega
+  have hloc : lo c k = k - c.mc := by rw [lo_closed]; simp [hmet]
+  -- i < n or i = n
+  have hi : (k < Z.length ∧ Z[k]? = some i ∧ i < c.n) ∨ (k = Z.length ∧ i = c.n) := by
+    rcases Nat.lt_or_ge k Z.length with hlt | hge
+    · left
+      rw [List.getElem?_append_left hlt] at hk
+      have hmemi : i ∈ Z := List.mem_of_getElem? hk
+      exact ⟨hlt, hk, hn i hmemi⟩
+    · right
+      have hkeq : k = Z.length := by omega
+      subst hkeq
+      simp at hk
+      exact ⟨rfl, hk.symm⟩
+  have hb : min (i + 1) c.n = min i (c.n - 1) + 1 := by
+    simp only [Nat.min_def]; split <;> split <;> omega
+  have hbs : below Z a = j := below_start_nomet Z hs c.n hn j a (by omega) hj
+  -- lengths
+  have hlt : a < min (i + 1) c.n := by omega
+  -- rank of the end
+  have hbe : below Z (min (i + 1) c.n - 1) ≤ k := by
+    rcases hi with ⟨hlt', hiz, hin⟩ | ⟨hkeq, hin⟩
+    · have hzk : Z[k] = i := by rw [List.getElem?_eq_getElem hlt'] at hiz; exact Option.some.inj hiz
+      have : min (i + 1) c.n - 1 = Z[k] := by omega
+      rw [this, below_getElem Z hs k hlt']
+      exact Nat.le_refl _
+    · rw [hkeq]; exact below_le_length Z _
+  refine ⟨hlt, Nat.min_le_right _ _, by omega, by omega, ?_, ?_, ?_⟩
+  · -- start is a terminus
+    cases j with
+    | zero => left; simp [allStarts] at hj; exact hj.symm
+    | succ j =>
+      right; right; left
+      rw [allStarts_succ] at hj
+      have hj' : j < Z.length := by omega
+      rw [List.getElem?_append_left hj', List.getElem?_eq_getElem hj'] at hj
+      simp at hj
+      exact ⟨Z[j], List.getElem_mem hj', hj, by omega⟩
+  · -- end is a terminus
+    rcases hi with ⟨hlt', hiz, hin⟩ | ⟨hkeq, hin⟩
+    · by_cases hend : i + 1 = c.n
+      · right; left; omega
+      · right; right; left
+        exact ⟨i, List.mem_of_getElem? hiz, by omega, by omega⟩
+    · right; left; omega
+  · rw [inner_eq Z a _ hlt, hbs]; omega
+
+
+/-- completeness without a Met site: every pair allowed by the declarative rule is emitted -/
+theorem valid_emitted_nomet (c : Cfg) (Z : List Nat) (hmet : c.met = false) (hn1 : 1 ≤ c.n)
+    (hs : Z.Pairwise (· < ·)) (hn : ∀ z ∈ Z, z < c.n) (a b : Nat)
+    (h : ZValid c Z a b) : Emitted c Z a b := by
+  obtain ⟨hlt, hle, hmin, hmax, hta, htb, hbud⟩ := h
+  have hE : sitesOf c Z = Z ++ [c.n] := by simp [sitesOf, hmet]
+  have hloc : ∀ k, lo c k = k - c.mc := by intro k; rw [lo_closed]; simp [hmet]
+  -- the end: a site index `k`, its site `i`, with `min (i+1) n = b` and rank `k`
+  have hend : ∃ k i, (Z ++ [c.n])[k]? = some i ∧ min (i + 1) c.n = b ∧ below Z (b - 1) = k ∧
+      k ≤ Z.length := by
+    rcases htb with h0 | hbn | ⟨z, hz, hzb, hbn1⟩ | ⟨hm, _⟩
+    · omega
+    · by_cases hlast : c.n - 1 ∈ Z
+      · obtain ⟨t, ht, hzt⟩ := List.getElem_of_mem hlast
+        refine ⟨t, c.n - 1, ?_, ?_, ?_, by omega⟩
+        · rw [List.getElem?_append_left ht, List.getElem?_eq_getElem ht, hzt]
+        · omega
+        · rw [hbn, ← hzt, below_getElem Z hs t ht]
+      · refine ⟨Z.length, c.n, by simp, by omega, ?_, Nat.le_refl _⟩
+        rw [hbn]; exact below_pred Z c.n hn hlast
+    · obtain ⟨t, ht, hzt⟩ := List.getElem_of_mem hz
+      refine ⟨t, z, ?_, ?_, ?_, by omega⟩
+      · rw [List.getElem?_append_left ht, List.getElem?_eq_getElem ht, hzt]
+      · have := hn z hz; omega
+      · have : b - 1 = Z[t] := by omega
+        rw [this, below_getElem Z hs t ht]
+    · rw [hmet] at hm; simp at hm
+  -- the start: index `j = below Z a` with `A[j] = a`
+  have hstart : (allStarts (Z ++ [c.n]))[below Z a]? = some a := by
+    rcases hta with h0 | han | ⟨z, hz, hza, han1⟩ | ⟨hm, _⟩
+    · subst h0; simp [below_zero, allStarts]
+    · omega
+    · obtain ⟨t, ht, hzt⟩ := List.getElem_of_mem hz
+      have : below Z a = t + 1 := by rw [← hza, ← hzt]; exact below_getElem_succ Z hs t ht
+      rw [this, allStarts_succ, List.getElem?_append_left ht, List.getElem?_eq_getElem ht]
+      simp [hzt, hza]
+    · rw [hmet] at hm; simp at hm
+  obtain ⟨k, i, hk, hib, hrank, hkr⟩ := hend
+  have hjk : below Z a ≤ k := by rw [← hrank]; exact below_mono Z a (b - 1) (by omega)
+  have hin : inner Z a b = k - below Z a := by rw [inner_eq Z a b hlt, hrank]
+  refine ⟨a, i, ?_, rfl, hib.symm⟩
+  rw [mem_go, hE]
+  refine ⟨k, below Z a, hk, by rw [hloc]; omega, hjk, hstart, ?_, ?_⟩
+  · have : min i (c.n - 1) + 1 = b := by
+      rw [← hib]; simp only [Nat.min_def]; split <;> split <;> omega
+    omega
+  · have : min i (c.n - 1) + 1 = b := by
+      rw [← hib]; simp only [Nat.min_def]; split <;> split <;> omega
+    omega
+
+/-- C08 without an initiator-Met site: the loop emits exactly the pairs of the declarative rule -/
+theorem full_digest_nomet (c : Cfg) (Z : List Nat) (hmet : c.met = false) (hn1 : 1 ≤ c.n)
+    (hmin : 1 ≤ c.minL) (hs : Z.Pairwise (· < ·)) (hn : ∀ z ∈ Z, z < c.n) (a b : Nat) :
+    Emitted c Z a b ↔ ZValid c Z a b :=
+  ⟨emitted_valid_nomet c Z hmet hn1 hmin hs hn a b, valid_emitted_nomet c Z hmet hn1 hs hn a b⟩
+
+
+/-! ## layer 2, part C: with an initiator-Met site -/
+
+theorem sitesOf_met (c : Cfg) (Z : List Nat) (hmet : c.met = true) : sitesOf c Z = 0 :: (Z ++ [c.n]) := by
+  simp [sitesOf, hmet]
+
+theorem lo_met (c : Cfg) (hmet : c.met = true) (k : Nat) :
+    lo c k = if k ≤ c.mc + 1 then 0 else k - c.mc := by
+  rw [lo_closed]; simp [hmet]
+
+theorem below_one_of_not_mem (Z : List Nat) (h : 0 ∉ Z) : below Z 1 = 0 := by
+  unfold below
+  rw [List.length_eq_zero_iff, List.filter_eq_nil_iff]
+  intro z hz
+  have : z ≠ 0 := fun e => h (e ▸ hz)
+  simp only [decide_eq_true_eq]; omega
+
+/-- soundness with a Met site -/
+theorem emitted_valid_met (c : Cfg) (Z : List Nat) (hmet : c.met = true) (hn1 : 1 ≤ c.n)
+    (hmin : 1 ≤ c.minL) (hs : Z.Pairwise (· < ·)) (hn : ∀ z ∈ Z, z < c.n) (a b : Nat)
+    (h : Emitted c Z a b) : ZValid c Z a b := by
+  obtain ⟨s, i, hmem, rfl, rfl⟩ := h
+  rw [mem_go, sitesOf_met c Z hmet] at hmem
+  obtain ⟨k, j, hk, hlo, hjk, hj, hl1, hl2⟩ := hmem
+  rw [lo_met c hmet] at hlo
+  have hb : min (i + 1) c.n = min i (c.n - 1) + 1 := by
+    simp only [Nat.min_def]; split <;> split <;> omega
+  have hlt : a < min (i + 1) c.n := by omega
+  -- the end: k = 0 (Met site) or a site of Z or the protein end
+  have hend : (k = 0 ∧ i = 0) ∨
+      (∃ t, k = t + 1 ∧ t < Z.length ∧ Z[t]? = some i ∧ i < c.n) ∨ (k = Z.length + 1 ∧ i = c.n) := by
+    cases k with
+    | zero => left; simp at hk; exact ⟨rfl, hk.symm⟩
+    | succ t =>
+      right
+      simp only [List.getElem?_cons_succ] at hk
+      rcases Nat.lt_or_ge t Z.length with hlt' | hge
+      · left
+        rw [List.getElem?_append_left hlt'] at hk
+        exact ⟨t, rfl, hlt', hk, hn i (List.mem_of_getElem? hk)⟩
+      · right
+        have hlen := (List.getElem?_eq_some_iff.mp hk).1
+        simp at hlen
+        have hteq : t = Z.length := by omega
+        subst hteq
+        simp at hk
+        exact ⟨rfl, hk.symm⟩
+  -- rank of the end
+  have hbe : below Z (min (i + 1) c.n - 1) + 1 ≤ k ∨ (k = 0 ∧ min (i + 1) c.n = 1) := by
+    rcases hend with ⟨h0, hi0⟩ | ⟨t, hkt, ht, hzt, hin⟩ | ⟨hkr, hin⟩
+    · right; subst hi0; exact ⟨h0, by omega⟩
+    · left
+      have hzk : Z[t] = i := by rw [List.getElem?_eq_getElem ht] at hzt; exact Option.some.inj hzt
+      have : min (i + 1) c.n - 1 = Z[t] := by omega
+      rw [this, below_getElem Z hs t ht]; omega
+    · left; rw [hkr]; have := below_le_length Z (min (i + 1) c.n - 1); omega
+  -- the start: j = 0, j = 1, or after a site of Z
+  have hstart : (j = 0 ∧ a = 0) ∨ (j = 1 ∧ a = 1) ∨
+      (∃ t, j = t + 2 ∧ t < Z.length ∧ Z[t]? = some (a - 1) ∧ 1 ≤ a) := by
+    cases j with
+    | zero => left; simp [allStarts] at hj; exact ⟨rfl, hj.symm⟩
+    | succ j =>
+      right
+      rw [allStarts_succ] at hj
+      cases j with
+      | zero => left; simp at hj; exact ⟨rfl, hj.symm⟩
+      | succ t =>
+        right
+        simp only [List.getElem?_cons_succ] at hj
+        have htk : t + 2 ≤ k := hjk
+        have ht : t < Z.length := by
+          rcases hend with ⟨h0, _⟩ | ⟨t', hkt, ht', _, _⟩ | ⟨hkr, _⟩ <;> omega
+        rw [List.getElem?_append_left ht, List.getElem?_eq_getElem ht] at hj
+        simp at hj
+        exact ⟨t, rfl, ht, by rw [List.getElem?_eq_getElem ht]; congr 1; omega, by omega⟩
+  have hbs : (j ≤ 1 ∧ True) ∨ (2 ≤ j ∧ below Z a = j - 1) := by
+    rcases hstart with ⟨h0, _⟩ | ⟨h1, _⟩ | ⟨t, hjt, ht, hzt, ha1⟩
+    · left; exact ⟨by omega, trivial⟩
+    · left; exact ⟨by omega, trivial⟩
+    · right
+      have hzk : Z[t] = a - 1 := by rw [List.getElem?_eq_getElem ht] at hzt; exact Option.some.inj hzt
+      have : a = Z[t] + 1 := by omega
+      refine ⟨by omega, ?_⟩
+      rw [this, below_getElem_succ Z hs t ht]; omega
+  have hlenA : c.minL ≤ min (i + 1) c.n - a := by clear hstart hend hbs hbe hlo; omega
+  have hlenB : min (i + 1) c.n - a ≤ c.maxL := by clear hstart hend hbs hbe hlo; omega
+  refine ⟨hlt, Nat.min_le_right _ _, hlenA, hlenB, ?_, ?_, ?_⟩
+  · clear hbs hbe hlo hl1 hl2 hb hend
+    rcases hstart with ⟨_, h0⟩ | ⟨_, h1⟩ | ⟨t, _, ht, hzt, ha1⟩
+    · left; exact h0
+    · right; right; right; exact ⟨hmet, h1⟩
+    · right; right; left
+      exact ⟨a - 1, List.mem_of_getElem? hzt, by omega, by omega⟩
+  · clear hstart hbs hbe hlo hl1 hl2 hb hlt
+    rcases hend with ⟨_, hi0⟩ | ⟨t, _, ht, hzt, hin⟩ | ⟨_, hin⟩
+    · right; right; right; subst hi0; exact ⟨hmet, by omega⟩
+    · by_cases hendn : i + 1 = c.n
+      · right; left; omega
+      · right; right; left
+        exact ⟨i, List.mem_of_getElem? hzt, by omega, by omega⟩
+    · right; left; omega
+  · rw [inner_eq Z a _ hlt]
+    clear hstart hend hl1 hl2
+    rcases hbe with hbe | ⟨hk0, hb1⟩
+    · rcases hbs with ⟨hj1, _⟩ | ⟨hj2, hba⟩
+      · by_cases hkm : k ≤ c.mc + 1
+        · omega
+        · simp only [hkm, if_false] at hlo; omega
+      · by_cases hkm : k ≤ c.mc + 1
+        · omega
+        · simp only [hkm, if_false] at hlo; omega
+    · rw [hb1]; simp [below_zero]
+
+
+/-- completeness with a Met site -/
+theorem valid_emitted_met (c : Cfg) (Z : List Nat) (hmet : c.met = true) (hn1 : 1 ≤ c.n)
+    (hs : Z.Pairwise (· < ·)) (hn : ∀ z ∈ Z, z < c.n) (a b : Nat)
+    (h : ZValid c Z a b) : Emitted c Z a b := by
+  obtain ⟨hlt, hle, hmin, hmax, hta, htb, hbud⟩ := h
+  by_cases hb1 : b = 1
+  · -- the peptide "M": start 0, Met site 0
+    have ha0 : a = 0 := by omega
+    subst ha0; subst hb1
+    refine ⟨0, 0, ?_, rfl, by omega⟩
+    rw [mem_go, sitesOf_met c Z hmet]
+    refine ⟨0, 0, by simp, by simp [lo], Nat.le_refl _, by simp [allStarts], ?_, ?_⟩
+    · simp; omega
+    · simp; omega
+  · have hb2 : 2 ≤ b := by omega
+    -- the end: site index `k ≥ 1` with rank `k - 1`
+    have hend : ∃ k i, (0 :: (Z ++ [c.n]))[k]? = some i ∧ min (i + 1) c.n = b ∧
+        below Z (b - 1) + 1 = k := by
+      rcases htb with h0 | hbn | ⟨z, hz, hzb, hbn1⟩ | ⟨_, hbm⟩
+      · omega
+      · by_cases hlast : c.n - 1 ∈ Z
+        · obtain ⟨t, ht, hzt⟩ := List.getElem_of_mem hlast
+          refine ⟨t + 1, c.n - 1, ?_, by omega, ?_⟩
+          · rw [List.getElem?_cons_succ, List.getElem?_append_left ht, List.getElem?_eq_getElem ht, hzt]
+          · rw [hbn, ← hzt, below_getElem Z hs t ht]
+        · refine ⟨Z.length + 1, c.n, by simp, by omega, ?_⟩
+          rw [hbn, below_pred Z c.n hn hlast]
+      · obtain ⟨t, ht, hzt⟩ := List.getElem_of_mem hz
+        refine ⟨t + 1, z, ?_, ?_, ?_⟩
+        · rw [List.getElem?_cons_succ, List.getElem?_append_left ht, List.getElem?_eq_getElem ht, hzt]
+        · have := hn z hz; omega
+        · have : b - 1 = Z[t] := by omega
+          rw [this, below_getElem Z hs t ht]
+      · omega
+    obtain ⟨k, i, hk, hib, hrank⟩ := hend
+    have hlen1 : min i (c.n - 1) + 1 = b := by
+      rw [← hib]; simp only [Nat.min_def]; split <;> split <;> omega
+    -- the start: index `j` with `A[j] = a` and `j = 0` or `j = below Z a + 1`
+    have hstart : ∃ j, (allStarts (0 :: (Z ++ [c.n])))[j]? = some a ∧
+        ((a = 0 ∧ j = 0) ∨ (1 ≤ a ∧ j = below Z a + 1)) := by
+      have hsite : ∀ z ∈ Z, z + 1 = a → ∃ j, (allStarts (0 :: (Z ++ [c.n])))[j]? = some a ∧
+          ((a = 0 ∧ j = 0) ∨ (1 ≤ a ∧ j = below Z a + 1)) := by
+        intro z hz hza
+        obtain ⟨t, ht, hzt⟩ := List.getElem_of_mem hz
+        refine ⟨t + 2, ?_, Or.inr ⟨by omega, ?_⟩⟩
+        · rw [allStarts_succ, List.getElem?_cons_succ, List.getElem?_append_left ht,
+            List.getElem?_eq_getElem ht]
+          simp [hzt, hza]
+        · rw [← hza, ← hzt, below_getElem_succ Z hs t ht]
+      rcases hta with h0 | han | ⟨z, hz, hza, _⟩ | ⟨_, ha1⟩
+      · exact ⟨0, by simp [allStarts, h0], Or.inl ⟨h0, rfl⟩⟩
+      · omega
+      · exact hsite z hz hza
+      · by_cases h0Z : 0 ∈ Z
+        · exact hsite 0 h0Z (by omega)
+        · refine ⟨1, by simp [allStarts, ha1], Or.inr ⟨by omega, ?_⟩⟩
+          rw [ha1, below_one_of_not_mem Z h0Z]
+    obtain ⟨j, hj, hjcase⟩ := hstart
+    have hmono : below Z a ≤ below Z (b - 1) := below_mono Z a (b - 1) (by omega)
+    have hin : inner Z a b = below Z (b - 1) - below Z a := inner_eq Z a b hlt
+    refine ⟨a, i, ?_, rfl, hib.symm⟩
+    rw [mem_go, sitesOf_met c Z hmet]
+    refine ⟨k, j, hk, ?_, ?_, hj, by omega, by omega⟩
+    · rw [lo_met c hmet]
+      rcases hjcase with ⟨ha0, hj0⟩ | ⟨ha1, hj1⟩
+      · subst hj0
+        have hb0 : below Z a = 0 := by rw [ha0]; exact below_zero Z
+        have : k ≤ c.mc + 1 := by omega
+        simp [this]
+      · by_cases hkm : k ≤ c.mc + 1
+        · simp [hkm]
+        · simp only [hkm, if_false]; omega
+    · rcases hjcase with ⟨_, hj0⟩ | ⟨_, hj1⟩ <;> omega
+
+/-- C08 with an initiator-Met site -/
+theorem full_digest_met (c : Cfg) (Z : List Nat) (hmet : c.met = true) (hn1 : 1 ≤ c.n)
+    (hmin : 1 ≤ c.minL) (hs : Z.Pairwise (· < ·)) (hn : ∀ z ∈ Z, z < c.n) (a b : Nat) :
+    Emitted c Z a b ↔ ZValid c Z a b :=
+  ⟨emitted_valid_met c Z hmet hn1 hmin hs hn a b, valid_emitted_met c Z hmet hn1 hs hn a b⟩
+
+/-- C08, `full_digest` (repaired length formula): for every strictly increasing list of
+    enzymatic sites below `n`, every length window with `minL ≥ 1`, every missed-cleavage budget
+    and either Met setting, the loop emits exactly the index pairs of the declarative rule -/
+theorem zfull_digest_set_eq (c : Cfg) (Z : List Nat) (hn1 : 1 ≤ c.n) (hmin : 1 ≤ c.minL)
+    (hs : Z.Pairwise (· < ·)) (hn : ∀ z ∈ Z, z < c.n) (a b : Nat) :
+    Emitted c Z a b ↔ ZValid c Z a b := by
+  cases hm : c.met
+  · exact full_digest_nomet c Z hm hn1 hmin hs hn a b
+  · exact full_digest_met c Z hm hn1 hmin hs hn a b
+
+
+/-! ## Part 2: from residues to the site list, from index pairs to strings -/
+
+theorem range_pairwise_lt (n : Nat) : (List.range n).Pairwise (· < ·) := by
+  induction n with
+  | zero => simp
+  | succ n ih =>
+    rw [List.range_succ, List.pairwise_append]
+    refine ⟨ih, by simp, ?_⟩
+    intro a ha b hb
+    simp at ha hb; omega
+
+theorem sitesZ_sorted (r : EnzymeRule) (seq : List Char) : (sitesZ r seq).Pairwise (· < ·) :=
+  (range_pairwise_lt _).filter _
+
+theorem sitesZ_lt (r : EnzymeRule) (seq : List Char) : ∀ z ∈ sitesZ r seq, z < seq.length := by
+  intro z hz
+  simp only [sitesZ, List.mem_filter, List.mem_range] at hz
+  exact hz.1
+
+/-- the code's inlined site test at residue `x - 1` is the declarative rule at the cut position `x` -/
+theorem enz_iff_rule (r : EnzymeRule) (seq : List Char) (x : Nat) (h1 : 1 ≤ x) (h2 : x ≤ seq.length - 1) :
+    enz r seq (x - 1) = true ↔ RuleAt r seq x := by
+  have hlook : min (seq.length - 1) (x - 1 + 1) = x := by omega
+  simp only [enz, hlook, RuleAt, Bool.or_eq_true, Bool.and_eq_true, Bool.not_eq_true',
+    List.isEmpty_eq_false_iff, List.contains_eq_mem, decide_eq_true_eq, decide_eq_false_iff_not]
+  constructor
+  · rintro (⟨⟨_, h⟩, h'⟩ | ⟨_, h⟩)
+    · exact Or.inl ⟨h, h'⟩
+    · exact Or.inr h
+  · rintro (⟨h, h'⟩ | h)
+    · exact Or.inl ⟨⟨List.ne_nil_of_mem h, h⟩, h'⟩
+    · exact Or.inr ⟨List.ne_nil_of_mem h, h⟩
+
+theorem siteCut_iff_site (r : EnzymeRule) (seq : List Char) (x : Nat) :
+    SiteCut (sitesZ r seq) seq.length x ↔ Site r seq x := by
+  constructor
+  · rintro ⟨z, hz, hzx, hxn⟩
+    simp only [sitesZ, List.mem_filter, List.mem_range] at hz
+    have hz' : z = x - 1 := by omega
+    subst hz'
+    exact ⟨by omega, by omega, (enz_iff_rule r seq x (by omega) hxn).mp hz.2⟩
+  · rintro ⟨h1, h2, hr⟩
+    refine ⟨x - 1, ?_, by omega, by omega⟩
+    simp only [sitesZ, List.mem_filter, List.mem_range]
+    exact ⟨by omega, (enz_iff_rule r seq x h1 (by omega)).mpr hr⟩
+
+theorem filter_range_lt (p : Nat → Bool) (m : Nat) : ∀ n, m ≤ n →
+    (List.range n).filter (fun z => p z && decide (z < m)) = (List.range m).filter p := by
+  intro n
+  induction n with
+  | zero => intro h; have : m = 0 := by omega
+            subst this; simp
+  | succ n ih =>
+    intro h
+    rw [List.range_succ, List.filter_append]
+    rcases Nat.lt_or_ge n m with hlt | hge
+    · have hm : m = n + 1 := by omega
+      subst hm
+      rw [List.range_succ, List.filter_append]
+      congr 1
+      · apply List.filter_congr
+        intro z hz
+        have : z < n + 1 := by simp at hz; omega
+        simp [this]
+      · simp [List.filter_cons]
+    · rw [ih hge]
+      have : ¬ n < m := by omega
+      simp [this]
+
+theorem filter_range_shift (p : Nat → Bool) (h0 : p 0 = false) (b : Nat) :
+    ((List.range b).filter p).length = ((List.range (b - 1)).filter (fun z => p (z + 1))).length := by
+  cases b with
+  | zero => simp
+  | succ b =>
+    rw [List.range_succ_eq_map, List.filter_cons]
+    simp only [h0, Bool.false_eq_true, if_false, List.filter_map, List.length_map, Nat.add_sub_cancel]
+    rfl
+
+/-- the rank difference counted on the site list is the number of enzymatic sites strictly inside -/
+theorem inner_eq_innerSites (r : EnzymeRule) (seq : List Char) (a b : Nat) (hb : b ≤ seq.length) :
+    inner (sitesZ r seq) a b = innerSites r seq a b := by
+  unfold inner innerSites sitesZ
+  rw [List.filter_filter]
+  have h1 : (List.range seq.length).filter (fun z => (decide (a ≤ z) && decide (z < b - 1)) && enz r seq z) =
+      (List.range seq.length).filter (fun z => (enz r seq z && decide (a ≤ z)) && decide (z < b - 1)) := by
+    apply List.filter_congr
+    intro z _
+    cases enz r seq z <;> cases decide (a ≤ z) <;> cases decide (z < b - 1) <;> rfl
+  rw [h1, filter_range_lt (fun z => enz r seq z && decide (a ≤ z)) (b - 1) seq.length (by omega)]
+  rw [filter_range_shift (fun x => decide (a < x) && decide (Site r seq x)) (by simp [Site]) b]
+  congr 1
+  apply List.filter_congr
+  intro z hz
+  have hz' : z < b - 1 := by simpa using hz
+  have hs : Site r seq (z + 1) ↔ enz r seq z = true := by
+    have he := enz_iff_rule r seq (z + 1) (by omega) (by omega)
+    rw [Nat.add_sub_cancel] at he
+    rw [he]
+    constructor
+    · rintro ⟨_, _, h⟩; exact h
+    · intro h; exact ⟨by omega, by omega, h⟩
+  by_cases he : enz r seq z = true
+  · have : Site r seq (z + 1) := hs.mpr he
+    simp only [he, this, decide_true, Bool.true_and, Bool.and_true]
+    by_cases ha : a ≤ z
+    · have : a < z + 1 := by omega
+      simp [ha, this]
+    · have : ¬ a < z + 1 := by omega
+      simp [ha, this]
+  · have hn : ¬ Site r seq (z + 1) := fun h => he (hs.mp h)
+    have he' : enz r seq z = false := by simpa using he
+    simp [he', hn]
+
+theorem slice_clamp {α : Type} (seq : List α) (s e : Nat) :
+    slice seq s e = slice seq s (min e seq.length) := by
+  unfold slice
+  rw [List.take_eq_take_iff]
+  simp only [List.length_drop]
+  omega
+
+theorem metFlag_iff (met : Bool) (seq : List Char) :
+    (met && seq.head? == some 'M') = true ↔ met = true ∧ seq.head? = some 'M' := by
+  simp
+
+theorem zterm_iff_terminus (r : EnzymeRule) (seq : List Char) (met : Bool) (x : Nat) :
+    ZTerm (sitesZ r seq) seq.length (met && seq.head? == some 'M') x ↔ Terminus r met seq x := by
+  unfold ZTerm Terminus MetSite
+  rw [siteCut_iff_site, metFlag_iff]
+  simp only [and_assoc]
+
+theorem zvalid_iff_valid (r : EnzymeRule) (seq : List Char) (minL maxL mc : Nat) (met : Bool) (a b : Nat) :
+    ZValid (cfgOf seq minL maxL mc met) (sitesZ r seq) a b ↔ Valid .full r minL maxL mc met seq a b := by
+  constructor
+  · rintro ⟨h1, h2, h3, h4, h5, h6, h7⟩
+    simp only [cfgOf] at h2 h3 h4 h5 h6 h7
+    refine ⟨h1, h2, h3, h4, ⟨(zterm_iff_terminus r seq met a).mp h5, (zterm_iff_terminus r seq met b).mp h6⟩, ?_⟩
+    intro _
+    rw [← inner_eq_innerSites r seq a b h2]; exact h7
+  · rintro ⟨h1, h2, h3, h4, ⟨h5, h6⟩, h7⟩
+    refine ⟨h1, h2, h3, h4, (zterm_iff_terminus r seq met a).mpr h5, (zterm_iff_terminus r seq met b).mpr h6, ?_⟩
+    simp only [cfgOf]
+    rw [inner_eq_innerSites r seq a b h2]; exact h7 (by decide)
+
+/-- the strings `full_digest` yields are the slices of the emitted index pairs -/
+theorem mem_fullPeptides (r : EnzymeRule) (seq : List Char) (minL maxL mc : Nat) (met : Bool) (x : List Char) :
+    x ∈ (fullPairs r seq minL maxL mc met).map (fun p => slice seq p.1 (p.2 + 1)) ↔
+      ∃ a b, Emitted (cfgOf seq minL maxL mc met) (sitesZ r seq) a b ∧ x = slice seq a b := by
+  simp only [List.mem_map, fullPairs, Emitted, Prod.exists]
+  constructor
+  · rintro ⟨s, i, hmem, rfl⟩
+    refine ⟨s, min (i + 1) seq.length, ⟨s, i, hmem, rfl, rfl⟩, ?_⟩
+    exact slice_clamp seq s (i + 1)
+  · rintro ⟨a, b, ⟨s, i, hmem, rfl, rfl⟩, rfl⟩
+    exact ⟨a, i, hmem, slice_clamp seq a (i + 1)⟩
+
+/-! ## Part 3: non-specific digestion -/
+
+theorem mem_nonSpecific {α : Type} (seq : List α) (minL maxL : Nat) (x : List α) :
+    x ∈ nonSpecific seq minL maxL ↔
+      ∃ i j, i + minL ≤ j ∧ j ≤ i + maxL ∧ j ≤ seq.length ∧ x = slice seq i j := by
+  unfold nonSpecific
+  simp only [List.mem_flatMap, List.mem_range, List.mem_filterMap, List.mem_filter, decide_eq_true_eq]
+  constructor
+  · rintro ⟨i, _, j, ⟨hj, hij⟩, hx⟩
+    split at hx
+    · rename_i hjn
+      refine ⟨i, j, hij, by omega, hjn, ?_⟩
+      simpa using hx.symm
+    · simp at hx
+  · rintro ⟨i, j, h1, h2, h3, rfl⟩
+    refine ⟨i, by omega, j, ⟨by omega, h1⟩, by simp [h3]⟩
+
 end PgFdr.C08
